@@ -31,33 +31,35 @@ type LoopSpec struct {
 }
 
 type Contract struct {
-	Key        string // <pkgpath>.<Func> or <pkgpath>.<Recv>.<Method>
-	PkgPath    string
-	Name       string
-	RecvType   string
-	RecvName   string
-	RecvPtr    bool
-	ParamNames []string
-	ResNames   []string
-	Decl       *ast.FuncDecl
-	Requires   []*Clause
-	Ensures    []*Clause
-	Modifies   []*Clause
-	Loops      map[int]*LoopSpec
-	Hints      []*Clause
-	ModeSet    bool
-	Mode       Mode
-	MayPanic   bool
-	Trusted    bool // assumed contract: body is not verified (extern or stated reason)
-	TrustWhy   string
-	Abstracts  string
-	Inline     bool // always inline instead of using the contract at call sites
-	Props      []string
-	Src        string
-	Ghost      []string
-	NoFrame    bool
-	Witnesses  []*Clause // candidate witnesses (over locals) for exists() in postconditions
-	IntOnly    bool // use the contract only from int-mode callers; bv-mode callers inline the body
+	Key         string // <pkgpath>.<Func> or <pkgpath>.<Recv>.<Method>
+	PkgPath     string
+	Name        string
+	RecvType    string
+	RecvName    string
+	RecvPtr     bool
+	ParamNames  []string
+	ResNames    []string
+	Decl        *ast.FuncDecl
+	Requires    []*Clause
+	Ensures     []*Clause
+	Modifies    []*Clause
+	Loops       map[int]*LoopSpec
+	Hints       []*Clause
+	ModeSet     bool
+	Mode        Mode
+	MayPanic    bool
+	Trusted     bool // assumed contract: body is not verified (extern or stated reason)
+	TrustWhy    string
+	Abstracts   string
+	Inline      bool // always inline instead of using the contract at call sites
+	Props       []string
+	Src         string
+	Ghost       []string
+	NoFrame     bool
+	Cases       []*Clause // case split: the function is verified once under each case assumption
+	Witnesses   []*Clause // candidate witnesses (over locals) for exists() in postconditions
+	WrapsSigned bool      // signed arithmetic of this function wraps by design (no overflow obligations)
+	IntOnly     bool      // use the contract only from int-mode callers; bv-mode callers inline the body
 }
 
 type SpecFunc struct {
@@ -117,7 +119,7 @@ func newContractDB() *ContractDB {
 	return &ContractDB{Funcs: map[string]*Contract{}, Specs: map[string]*SpecFunc{}, Lemmas: map[string]*Lemma{}, Consts: map[string]string{}, Ghosts: map[string]string{}}
 }
 
-var keywordRe = regexp.MustCompile(`^(package|axiom|func|requires|ensures|modifies|mode|loop|invariant|decreases|hint|unfold|use|induct|may_panic|trusted|abstracts|inline|intonly|witness|property|spec|lemma|struct|global|ghost|noframe|const)\b`)
+var keywordRe = regexp.MustCompile(`^(package|axiom|func|requires|ensures|modifies|mode|loop|invariant|decreases|hint|unfold|use|induct|may_panic|trusted|abstracts|inline|intonly|wraps_signed|witness|cases|property|spec|lemma|struct|global|ghost|noframe|const)\b`)
 
 // stripComment removes a trailing `// ...` that is outside string literals
 func stripComment(s string) string {
@@ -620,6 +622,16 @@ func (db *ContractDB) LoadFile(path, pkgPath string, trusted bool) error {
 				cur.NoFrame = true
 			case "intonly":
 				cur.IntOnly = true
+			case "wraps_signed":
+				cur.WrapsSigned = true
+			case "cases":
+				for _, tx := range splitTop(rest, "|||") {
+					cl, err := parseClause(strings.TrimSpace(tx), st.src)
+					if err != nil {
+						return err
+					}
+					cur.Cases = append(cur.Cases, cl)
+				}
 			case "witness":
 				cl, err := parseClause(rest, st.src)
 				if err != nil {
